@@ -20159,6 +20159,9 @@ func (lex *Lexer) Lex() *token.Token {
 			lex.setTokenPosition(tkn)
 			tok = token.T_ENCAPSED_AND_WHITESPACE
 			lex.ret(2)
+			if lex.cs == lexer_en_heredoc && lex.isHeredocEnd(lex.p) {
+				lex.cs = lexer_en_heredoc_end
+			}
 			goto _out
 		}
 		goto st503
@@ -20195,6 +20198,9 @@ func (lex *Lexer) Lex() *token.Token {
 			lex.setTokenPosition(tkn)
 			tok = token.T_ENCAPSED_AND_WHITESPACE
 			lex.ret(2)
+			if lex.cs == lexer_en_heredoc && lex.isHeredocEnd(lex.p) {
+				lex.cs = lexer_en_heredoc_end
+			}
 			goto _out
 		}
 		goto st503
